@@ -1258,7 +1258,14 @@ func (se *stanzaEncoder) EncodeToken(t xml.Token) error {
 			// of filtering in place.
 			attrs := make([]xml.Attr, 0, len(tok.Attr)+2)
 			for _, attr := range tok.Attr {
-				switch attr.Name.Local {
+				// The stanza attributes are unqualified; an attribute with the same
+				// local name in some other namespace (xml:id, or a namespace declaration
+				// such as xmlns:id) is unrelated and passed on as it is.
+				local := attr.Name.Local
+				if attr.Name.Space != "" {
+					local = ""
+				}
+				switch local {
 				case "id":
 					// RFC6120 § 8.1.3
 					// For <message/> and <presence/> stanzas, it is RECOMMENDED for the
@@ -1300,7 +1307,7 @@ func (se *stanzaEncoder) EncodeToken(t xml.Token) error {
 		// attributes. See https://mellium.im/issue/75
 		attrs := make([]xml.Attr, 0, len(tok.Attr))
 		for _, attr := range tok.Attr {
-			if attr.Name.Local == "xmlns" && tok.Name.Space != "" {
+			if attr.Name.Space == "" && attr.Name.Local == "xmlns" && tok.Name.Space != "" {
 				continue
 			}
 			attrs = append(attrs, attr)
